@@ -268,7 +268,7 @@ func verifC37Precedence(m, lo, hi *Configuration, who string) {
 }
 
 // verifC37Focus selects the focus groups: nfocus = 1 every single group,
-// nfocus = 2 every unordered pair of distinct groups.
+// nfocus = 2 every unordered pair of groups.
 func verifC37Focus() *[vtGroupCount]bool {
 	var focus [vtGroupCount]bool
 	g1 := vChoose(vtGroupCount)
@@ -277,6 +277,11 @@ func verifC37Focus() *[vtGroupCount]bool {
 		g2 := vChoose(vtGroupCount)
 		vAssume(g1 <= g2)
 		focus[g2] = true
+	}
+	// withperm: the permissions group (the one group with a cross-part
+	// dependency) is symbolic together with every other group.
+	if vParam("withperm", 0) != 0 {
+		focus[vtGPermissions] = true
 	}
 	return &focus
 }
@@ -291,22 +296,25 @@ func verifC37Endpoint(session, specific *Configuration, who string) {
 	verifC37Precedence(merged, session, specific, who)
 
 	// Attribute a failure of the acceptance assertions below to the one
-	// cross-part dependency that exists (file mode vs. permissions mode).
-	if specific.DefaultFileMode != 0 {
-		vNote("endpoint-specific DefaultFileMode with session-level permissions mode: the endpoint-specific part is validated without the session's (effective) permissions mode, the merged configuration with it")
+	// cross-part dependency that exists (file mode vs. permissions mode): the
+	// class (a condition on the inputs only) is part of the labels.
+	class := ""
+	if vAnd(specific.DefaultFileMode&0111 != 0, vOr(session.PermissionsMode == core.PermissionsMode_PermissionsModeDefault, session.PermissionsMode == core.PermissionsMode_PermissionsModePortable)) {
+		class = "[endpoint-specific executable file mode, portable session] "
+		vNote("endpoint-specific DefaultFileMode with session-level permissions mode: the endpoint-specific part is validated without the session's (effective) permissions mode, so executable bits pass there, while the merged configuration is validated in portable mode")
 	} else {
 		vNote("merged configuration of accepted parts is rejected")
 	}
 	err := merged.EnsureValid(false)
-	vAssert(err == nil, who+"merged configuration is accepted by endpoint validation (EnsureValid(false))")
+	vAssert(err == nil, who+class+"merged configuration is accepted by endpoint validation (EnsureValid(false))")
 
 	// Own statement of the executability rule: the effective permissions
 	// mode is the merged one, the session version's default being portable.
-	portable := merged.PermissionsMode == core.PermissionsMode_PermissionsModePortable ||
-		merged.PermissionsMode == core.PermissionsMode_PermissionsModeDefault
+	portable := vOr(merged.PermissionsMode == core.PermissionsMode_PermissionsModePortable,
+		merged.PermissionsMode == core.PermissionsMode_PermissionsModeDefault)
 	if portable {
 		vCover("portable")
-		vAssert(merged.DefaultFileMode&0111 == 0, who+"default file mode has no executable bits in portable permissions mode")
+		vAssert(merged.DefaultFileMode&0111 == 0, who+class+"default file mode has no executable bits in portable permissions mode")
 	}
 	vAssert(merged.DefaultFileMode&^0777 == 0, who+"default file mode has only permission bits")
 	vAssert(merged.DefaultDirectoryMode&^0777 == 0, who+"default directory mode has only permission bits")
